@@ -235,9 +235,9 @@ def audit_theorems(module, theorems):
         os.unlink(f)
     res = {t: None for t in theorems}
     # output: "'name' depends on axioms: [a, b]" or "'name' does not depend on any axioms"
-    for m in re.finditer(r"'([^']+)' depends on axioms: \[([^\]]*)\]", out.replace("\n", " ")):
+    for m in re.finditer(r"'(\S+?)' depends on axioms: \[([^\]]*)\]", out.replace("\n", " ")):
         res[m.group(1)] = [a.strip() for a in m.group(2).split(",") if a.strip()]
-    for m in re.finditer(r"'([^']+)' does not depend on any axioms", out):
+    for m in re.finditer(r"'(\S+?)' does not depend on any axioms", out):
         res[m.group(1)] = []
     return res, out
 
@@ -263,7 +263,8 @@ def _run_file(exe, lines, timeout, env=None):
         outs = open(fo, errors="replace").read().split("\n")
         if outs and outs[-1] == "":
             outs.pop()
-        err = open(fe, errors="replace").read()[-3000:]
+        err = open(fe, errors="replace").read()
+        err = err[:3000] + err[-1500:]
     finally:
         for f in (fi.name, fo, fe):
             if os.path.exists(f):
